@@ -190,6 +190,7 @@ func MaybeNilDerefs(ds *Describer, fn *ssa.Function) []NilDeref {
 			}
 			for _, lf := range PhiLeaves(phi, phi) {
 				nilSrc := ""
+				var errPhi *ssa.Phi // the error merged on the same edge as this result (`v, err = f()` in two branches, one test after)
 				if IsNilConst(lf.V) {
 					nilSrc = "is nil when control arrives from " + "this edge"
 				} else if ex, ok := lf.V.(*ssa.Extract); ok {
@@ -204,6 +205,19 @@ func MaybeNilDerefs(ds *Describer, fn *ssa.Function) []NilDeref {
 								w := UnguardedLeaf(ds, fn, call, lf, func(c Cond) int { return ErrNilSucc(c, errEx) })
 								if w != nil {
 									nilSrc = "is the result of a call whose error was not nil"
+									if lf.To != nil {
+										for _, pin := range lf.To.Instrs {
+											ep, isPhi := pin.(*ssa.Phi)
+											if !isPhi {
+												break
+											}
+											for k, pb := range lf.To.Preds {
+												if pb == lf.Pred && k < len(ep.Edges) && ep.Edges[k] == ssa.Value(errEx) {
+													errPhi = ep
+												}
+											}
+										}
+									}
 								}
 							}
 						}
@@ -218,6 +232,11 @@ func MaybeNilDerefs(ds *Describer, fn *ssa.Function) []NilDeref {
 					}
 					guard := NonNilGuard(ds, phi)
 					est := GuardEdges(ds, fn, guard)
+					var errEst map[*ssa.BasicBlock]int
+					if errPhi != nil {
+						ep := errPhi
+						errEst = GuardEdges(ds, fn, func(c Cond) int { return ErrNilSucc(c, ep) })
+					}
 					// search from the phi's block (entered from the nil edge) to the use
 					q := PathQuery{Fn: fn, From: phi, Target: func(x ssa.Instruction) bool { return x == use }, Edge: func(bb *ssa.BasicBlock, succ int) bool {
 						if s, ok := est[bb]; ok && s == succ {
@@ -225,6 +244,9 @@ func MaybeNilDerefs(ds *Describer, fn *ssa.Function) []NilDeref {
 						}
 						if bb.Succs[succ] == phi.Block() {
 							return false // entering the phi's block again gives the phi a new value (next loop iteration)
+						}
+						if s, ok := errEst[bb]; ok && s == succ {
+							return false // the merged error found nil: the call succeeded, its result is not the nil one
 						}
 						return true
 					}}
